@@ -7,6 +7,9 @@ import leafgen as lg
 
 ID = 'C01'
 GEN = ['kernels', 'classes', 'thermal', 'functions', 'storage']
+# the scalar kernels of functions.py this property's statement depends on (a change confined to the others is not this property's business;
+# what its own correspondence compares still is)
+KERNELS_USED = ['ABCCost.s', 'ABCCost.q', 'ABCCost._cost', 'HLQuadraticCost._cost', 'ABCCost._deriv', 'HLQuadraticCost._deriv']
 PROPS = 'Props/C01.v'
 MODEL_VO = ['Model/Dev.v']
 EXTRA_MODEL_VO = ['Proofs/TransEval.v']
